@@ -18,7 +18,8 @@ REQUIRED_COUNTERS = {t: ['winner_pos_0', 'winner_pos_1', 'winner_pos_2', 'winner
                          'over_ruff', 'ruff_beats_higher_card', 'higher_offsuit_discard_loses', 'revoke']
                      for t in ('quick', 'thorough')}
 SHARDS = {'quick': 1, 'thorough': 16}
-TRUSTED = ['the cards of the current (incomplete) trick are not public: that field is reconstructed from the accepted plays']
+TRUSTED = ['the MiniPy semantics (Model/MiniPy.lean: value semantics, no aliasing) and the code translator (harness/translate_py.py), validated on every run by executing the translated program next to the real code (counters translated_*)',
+           'the cards of the current (incomplete) trick are not public: that field is reconstructed from the accepted plays']
 ASSUMPTIONS = ['CPython list/set/dict semantics']
 
 
